@@ -95,6 +95,11 @@ RoundOps == {[k |-> "round", n |-> n] : n \in Rounds}
 (* construction / end point assignment: [s, e] is an interval iff s <= e *)
 ExpConstruct(s, e) == IF s <= e THEN Ok(Fine(s), Fine(e)) ELSE [res |-> "reject", s |-> 0, e |-> 0]
 
+(* end point assignment through the public setters (I.start = x, I.end = x): the object then denotes the interval *)
+(* with the NEW bounds - exactly what a fresh construction with those bounds gives; start > end is rejected       *)
+ExpSetStart(I, x) == ExpConstruct(x, I.e)
+ExpSetEnd(I, x)   == ExpConstruct(I.s, x)
+
 (* ---- laws: the closed forms are the literal set semantics ---- *)
 (* R (fine units) is the image of I under the point map of op: a closed set with start <= end whose end points are   *)
 (* attained and which, on the image of the whole grid, has exactly the images of the members of I.                   *)
@@ -111,6 +116,12 @@ LawOverlaps(I)            == \A J \in PIntervals : ExpOverlaps(I, J) = B(H(I) \c
 LawIntersection(I)        == \A J \in PIntervals :
                                LET X == H(I) \cap H(J)  R == ExpIntersection(I, J)
                                IN IF X = {} THEN R.res = "None" ELSE R.res = "ok" /\ R.s <= R.e /\ HFine(R) = X
+LawSet(I)                 == \A x \in PVals :
+                               LET R1 == ExpSetStart(I, x)  R2 == ExpSetEnd(I, x)
+                               IN /\ IF x <= I.e THEN R1.res = "ok" /\ HFine(R1) = {p \in HGrid : 2 * x <= p /\ p <= 2 * I.e}
+                                                  ELSE R1.res = "reject"
+                                  /\ IF I.s <= x THEN R2.res = "ok" /\ HFine(R2) = {p \in HGrid : 2 * I.s <= p /\ p <= 2 * x}
+                                                  ELSE R2.res = "reject"
 LawConstruct              == \A s, e \in PVals : (ExpConstruct(s, e).res = "ok") <=> (\E I \in PIntervals : I.s = s /\ I.e = e)
 
 (* =============================== angle intervals =============================== *)
@@ -156,6 +167,14 @@ Up(s)        == IF s < -Turn THEN Up(s + Turn) ELSE s
 Rebase(s, len) == Up(Down(s, len))                \* one admissible representation inside the domain
 ExpAngleShift(A, x) == [a |-> Rebase(A.a + x, A.len), len |-> A.len]
 
+(* end point assignment on an angle interval [a, a+len] that lies inside the domain (so its stored end points are the   *)
+(* floats passed in): new bounds x..y (absolute grid indices).  Admissible: inside the domain, and either inverted    *)
+(* (must be rejected) or shorter than a full turn; the object then denotes the interval a fresh construction gives.   *)
+AngleSetAdmissible(x, y) == -Turn <= x /\ x <= Turn /\ -Turn <= y /\ y <= Turn /\ (x > y \/ y - x < Turn)
+ExpAngleSet(x, y) == IF x > y THEN [res |-> "reject", a |-> 0, len |-> 0] ELSE [res |-> "ok", a |-> x, len |-> y - x]
+ExpAngleSetStart(A, x) == ExpAngleSet(x, A.a + A.len)
+ExpAngleSetEnd(A, y)   == ExpAngleSet(A.a, y)
+
 (* overlaps of two angle intervals: the statement does not say whether the inherited method compares the stored     *)
 (* numbers or the sets of directions; both readings are accepted, touching end points may be inexact.                *)
 NormA(A) == [a |-> Rebase(A.a, A.len), len |-> A.len]
@@ -194,6 +213,16 @@ LawAngleShift(A, xs) ==
   \A x \in xs : LET R == ExpAngleShift(A, x)
                 IN /\ R \in AIntervals /\ InDomain(R) /\ AShiftOK(A, x, R)
                    /\ ASetT[R] = {(p + 2 * x) % T2 : p \in ASetT[A]}
+LawAngleSet(A) ==                                \* re-bounding is rejected iff inverted; else it gives a valid interval inside the domain
+  \A x \in AStarts :                             \* (that its directions are those between the new bounds is checked on the transitions)
+    /\ AngleSetAdmissible(x, A.a + A.len) => LET R == ExpAngleSetStart(A, x)
+                                              IN IF x > A.a + A.len THEN R.res = "reject"
+                                                 ELSE /\ R.res = "ok" /\ [a |-> R.a, len |-> R.len] \in AIntervals /\ InDomain(R)
+                                                      /\ R.a = x /\ R.a + R.len = A.a + A.len
+    /\ AngleSetAdmissible(A.a, x) => LET R == ExpAngleSetEnd(A, x)
+                                     IN IF A.a > x THEN R.res = "reject"
+                                        ELSE /\ R.res = "ok" /\ [a |-> R.a, len |-> R.len] \in AIntervals /\ InDomain(R)
+                                             /\ R.a = A.a /\ R.a + R.len = x
 LawAngleOverlaps(A, Js) ==
   \A J \in Js : LET v == ExpAngleOverlaps(A, J)
                 IN /\ (v = "T") => ASetT[A] \cap ASetT[J] # {}                  \* "T" only if the direction sets meet
